@@ -111,6 +111,79 @@ var sharedPrefixSeq uint32
 var handoffMu sync.Mutex
 var handoffCount = map[turbotunnel.ClientID]int{}
 
+// ---- server-side attribution monitor (hook server.turbotunnel.packet-in) -----------
+//
+// Every packet the server takes out of a carrier is queued under the ClientID
+// that carrier presented. A model session sends KCP packets of exactly one
+// conversation, so a packet of another conversation queued under a session's
+// ClientID came from somebody else's carrier: the binding the property is
+// about, observed where it is made (KCP itself would drop such a packet, so
+// the streams alone do not show it).
+var (
+	attribMu     sync.Mutex
+	attribPlan   = map[turbotunnel.ClientID]*sessionPlan{}
+	attribRes    *vlib.Result
+	attribSeen   int64
+	attribWrong  int64
+	attribReport int
+)
+
+func attribRegister(id turbotunnel.ClientID, p *sessionPlan) {
+	attribMu.Lock()
+	attribPlan[id] = p
+	attribMu.Unlock()
+}
+
+func installAttributionHook(res *vlib.Result) {
+	attribMu.Lock()
+	attribRes = res
+	attribMu.Unlock()
+	verifhook.Set("server.turbotunnel.packet-in", func(args ...interface{}) {
+		if len(args) < 2 {
+			return
+		}
+		id, ok1 := args[0].(turbotunnel.ClientID)
+		pkt, ok2 := args[1].([]byte)
+		if !ok1 || !ok2 || len(pkt) < 24 {
+			return
+		}
+		conv := uint32(pkt[0]) | uint32(pkt[1])<<8 | uint32(pkt[2])<<16 | uint32(pkt[3])<<24
+		attribMu.Lock()
+		plan := attribPlan[id]
+		r := attribRes
+		attribMu.Unlock()
+		if plan == nil || r == nil {
+			return
+		}
+		plan.mu.Lock()
+		known, own := plan.convKnown, plan.conv
+		plan.mu.Unlock()
+		if !known {
+			return
+		}
+		atomic.AddInt64(&attribSeen, 1)
+		if conv == own {
+			return
+		}
+		atomic.AddInt64(&attribWrong, 1)
+		attribMu.Lock()
+		attribReport++
+		n := attribReport
+		var whose string
+		for oid, op := range attribPlan {
+			op.mu.Lock()
+			if op.convKnown && op.conv == conv {
+				whose = fmt.Sprintf(" - the conversation of session %x (ClientID %x)", op.Tag, oid[:])
+			}
+			op.mu.Unlock()
+		}
+		attribMu.Unlock()
+		if n <= 5 {
+			r.Violate("c05:upstream-packet-queued-under-another-client-id", fmt.Sprintf("a %d-byte packet of KCP conversation %08x was queued under ClientID %x, whose session %x uses conversation %08x%s", len(pkt), conv, id[:], plan.Tag, own, whose), map[string]interface{}{"case": fmt.Sprintf("sess/%x", plan.Tag), "client_id": fmt.Sprintf("%x", id[:]), "packet_conversation": fmt.Sprintf("%08x", conv), "session_conversation": fmt.Sprintf("%08x", own)})
+		}
+	})
+}
+
 func installHandoffHook() {
 	verifhook.Set("server.turbotunnel.after-addr-set", func(args ...interface{}) {
 		if len(args) < 1 {
@@ -137,6 +210,10 @@ func runSessions(res *vlib.Result, plans []*sessionPlan, deadline time.Duration,
 
 func runSessionsOn(res *vlib.Result, srv *e2eServer, plans []*sessionPlan, deadline time.Duration, parallel int) *e2eRun {
 	run := &e2eRun{res: res, srv: srv, plans: plans}
+	installAttributionHook(res)
+	defer func() {
+		res.ObsMax("upstream_packets_checked_at_the_servers_attribution_point", atomic.LoadInt64(&attribSeen))
+	}()
 	var wg sync.WaitGroup
 	sem := make(chan struct{}, parallel)
 	var mu sync.Mutex
@@ -170,6 +247,7 @@ func runSessionsOn(res *vlib.Result, srv *e2eServer, plans []*sessionPlan, deadl
 				res.Obs("sessions_with_client_ids_sharing_a_prefix", 1)
 			}
 			id := m.clientID
+			attribRegister(id, p)
 			m.handoff = func(n int) {
 				waitFor(20*time.Second, func() bool {
 					handoffMu.Lock()
@@ -413,7 +491,7 @@ func tokenlessCarriers(res *vlib.Result, srv *e2eServer, r *vlib.Rand, n int) {
 		go func(i int) {
 			defer wg.Done()
 			rr := r.SplitN("tokenless", i)
-			kind := rr.PickString([]string{"wrong-token", "wrong-token-then-valid-looking-session", "short", "token-then-partial-id", "empty"})
+			kind := rr.PickString([]string{"wrong-token", "wrong-token-then-valid-looking-session", "short", "token-then-partial-id", "token-then-partial-id", "token-then-partial-id", "token-then-partial-id", "empty"})
 			u := url.URL{Scheme: "ws", Host: srv.addr, Path: "/", RawQuery: "client_ip=192.0.2.99"}
 			ws, _, err := websocket.DefaultDialer.Dial(u.String(), nil)
 			if err != nil {
@@ -507,7 +585,12 @@ func TestVerifC05(t *testing.T) {
 		defer twg.Done()
 		srv := <-started
 		if srv != nil {
-			tokenlessCarriers(res, srv, root.Split("tl"), vlib.Scale(40, 400))
+			// in waves, while the sessions go from carrier to carrier: whatever a refused
+			// carrier leaves behind in the server is met by the carriers that follow
+			for w := 0; w < 4; w++ {
+				tokenlessCarriers(res, srv, root.SplitN("tl", w), vlib.Scale(60, 300))
+				time.Sleep(time.Duration(1+2*w) * time.Second)
+			}
 		}
 	}()
 	// carriers that present a ClientID of their own and then stay attached, silent,
